@@ -328,8 +328,8 @@ impl Default for Host {
 // ---------------------------------------------------------------------------------------------
 
 const TIE_NAMES: [&str; 10] = ["foo1", "foo2", "foo3", "foo4", "fob", "bar1", "bar2", "bar3", "baz", "qux"];
-const FIELD_NAMES: [&str; 14] = [
-	"a", "b", "c", "d", "aa", "ab", "ba", "zz", "k1", "k2", "k10", "K", "_x", "é",
+const FIELD_NAMES: [&str; 16] = [
+	"a", "b", "c", "d", "aa", "ab", "ba", "zz", "k1", "k2", "k10", "K", "_x", "é", "", "a b",
 ];
 
 pub const LIB_UTIL: &str = "/lib/util.libsonnet";
@@ -602,7 +602,28 @@ pub fn gen_family(rng: &mut Rng, family: &str) -> Prog {
 			p
 		}
 		"ext" => {
-			let variant = rng.below(4);
+			let variant = rng.below(7);
+			if variant >= 4 {
+				// code variables that read other variables
+				let mut p = Prog::new(family, "[std.extVar('c'), std.extVar('b'), std.extVar('c')]".to_owned());
+				p.ext.push(("a".into(), Arg::Code("1".into())));
+				p.ext.push(("s".into(), Arg::Str("str".into())));
+				p.ext.push(("b".into(), Arg::Code("std.extVar('a') + 1".into())));
+				p.ext.push((
+					"c".into(),
+					Arg::Code(match variant {
+						4 => "std.extVar('b') + std.extVar('a') + std.length(std.extVar('s'))".into(),
+						5 => "{ lazy: std.extVar('b'), strict: std.extVar('a') }".into(),
+						_ => "std.extVar('b') + std.extVar('missing')".into(),
+					}),
+				));
+				match variant {
+					4 => p.expect = Some("[6,2,6]".to_owned()),
+					5 => p.expect = Some("[{\"lazy\":2,\"strict\":1},2,{\"lazy\":2,\"strict\":1}]".to_owned()),
+					_ => p.expect_err = Some("UndefinedExtVar".to_owned()),
+				}
+				return p;
+			}
 			let mut p = Prog::new(
 				family,
 				"[std.extVar('x'), std.extVar('y'), std.extVar('x')]".to_owned(),
@@ -694,8 +715,14 @@ pub fn gen_family(rng: &mut Rng, family: &str) -> Prog {
 			}
 		}
 		"std-hof" => {
-			let variant = rng.below(5);
+			let variant = rng.below(9);
 			match variant {
+				5 => Prog::new(family, "std.sort(std.split('k3,,k1,k2,,k0', ','))".to_owned()).expect("[\"\",\"\",\"k0\",\"k1\",\"k2\",\"k3\"]").order(),
+				6 => Prog::new(family, "[std.set(['b', '', 'a', '']), '' < 'a', 'a' < '', std.minArray(['x', '', 'y']), std.objectFields({ name: 1, '': 2, kind: 3 })]".to_owned())
+					.expect("[[\"\",\"a\",\"b\"],true,false,\"\",[\"\",\"kind\",\"name\"]]")
+					.order(),
+				7 => Prog::new(family, "std.sort(['ab', 'a', 'abc', '', 'b', 'aa', 'é', 'e', 'a b'])".to_owned()).order(),
+				8 => Prog::new(family, "[std.uniq(std.sort(['k1', 'k10', 'k2', 'k1'])), std.setUnion(['', 'a'], ['a', 'b']), std.setInter(['', 'a'], ['', 'b'])]".to_owned()).order(),
 				0 => Prog::new(family, "std.foldl(function(a, b) a + b, std.map(function(x) x * x, std.range(1, 10)), 0)".to_owned()).expect("385"),
 				1 => Prog::new(family, "std.sort(['b', 'a', 'c', 'a'], function(x) x)".to_owned()).expect("[\"a\",\"a\",\"b\",\"c\"]"),
 				2 => Prog::new(family, "std.set(['b', 'a', 'c', 'a', 'é', 'B'])".to_owned()).expect("[\"B\",\"a\",\"b\",\"c\",\"é\"]").order(),
@@ -791,8 +818,15 @@ pub fn gen_family(rng: &mut Rng, family: &str) -> Prog {
 			Prog::new(family, code.to_owned()).err("StackOverflow").cyc()
 		}
 		"cyclic-garbage" => {
-			let variant = rng.below(4);
+			let variant = rng.below(9);
 			match variant {
+				// cycles that run through array views: long concatenations (kept as views above 1000
+				// elements), slices, reversed and repeated arrays, object value pickers
+				4 => Prog::new(family, "local o = { big: std.makeArray(1500, function(i) i) + [self], n: std.length(self.big) }; o.n".to_owned()).expect("1501").cyc(),
+				5 => Prog::new(family, "local a = std.makeArray(1200, function(i) i + 1), b = a + [b]; std.length(b) + std.length(b[1200])".to_owned()).expect("2402").cyc(),
+				6 => Prog::new(family, "local o = { v: [self, 1, 2, 3][0:2], w: std.reverse(self.v), x: std.repeat(self.w, 2) }; std.length(o.x)".to_owned()).expect("4").cyc(),
+				7 => Prog::new(family, "local o = { a: 1, vals: std.objectValues(self), kv: std.objectKeysValues(self) }; [std.length(o.vals), std.length(o.kv)]".to_owned()).expect("[3,3]").cyc(),
+				8 => Prog::new(family, "local o = { m: std.map(function(x) o, std.range(1, 3)), f: std.filter(function(x) true, self.m) }; std.length(o.f)".to_owned()).expect("3").cyc(),
 				0 => Prog::new(family, "local o = { me: self, f: function() o, x: 7 }; o.f().me.x".to_owned()).expect("7").cyc(),
 				1 => Prog::new(family, "local a = { b: b, n: 1 }, b = { a: a, n: 2 }; a.b.a.b.n".to_owned()).expect("2").cyc(),
 				2 => Prog::new(
